@@ -444,7 +444,7 @@ package graphql
 //@   ensures[C19] calls("getFieldsAndFragmentNames") == 1 ==> result == lastresult("getFieldsAndFragmentNames")
 //@ func ValidationContext.Fragment
 //@   trusted
-//@   assigns class:M|, class:E|, class:graphql.ValidationContext, class:graphql.pairSet, class:graphql.fieldsAndFragmentNames, class:graphql.fieldDefPair, class:graphql.conflict
+//@   assigns class:graphql.ValidationContext
 
 // ---- memo tables of the overlapping-fields rule (C02 soundness of memo hits, C19 memo effectiveness) ----
 
@@ -1911,6 +1911,45 @@ package graphql
 //@   ensures typeis(p.Node, "*ast.Directive") && calls("getDirectiveLocationForASTPath") == 0 ==> calls("reportError") == 1
 //@   ensures calls("getDirectiveLocationForASTPath") == 1 && len(lastresult("getDirectiveLocationForASTPath")) == 0 ==> calls("reportError") == 1
 //@   ensures calls("reportError") <= 1
+
+// NoFragmentCycles: the depth-first search marks a fragment visited before it descends and descends only into
+// fragments not yet marked (so it ends on cyclic fragments and each fragment is expanded once: C09, C19); a
+// spread whose fragment is on the current path is reported with the spreads of the cycle followed by that
+// spread; the path is restored when the search of a fragment returns.
+//@ func CycleErrorMessage
+//@   trusted
+//@   assigns nothing
+//@ func ValidationContext.FragmentSpreads
+//@   trusted
+//@   assigns class:graphql.ValidationContext, class:M|*ast.SelectionSet|
+//@ func NoFragmentCyclesRule$1
+//@   props C02 C09 C19
+//@   nosafety
+//@   opt callback.detectCycleRecursive=self
+//@   requires fragment != nil && visitedFrags != nil && spreadPathIndexByName != nil
+//@   assigns class:M|string|bool, class:M|string|int, class:E|*ast.FragmentSpread, class:graphql.ValidationContext, class:E|, class:M|*ast.SelectionSet|
+//@   ensures mapkept(visitedFrags)
+//@   ensures fragment.Name != nil ==> has(visitedFrags, fragment.Name.Value) && visitedFrags[fragment.Name.Value]
+//@   ensures len(spreadPath) == old(len(spreadPath))
+//@   loop 1 over lastresult("FragmentSpreads")
+//@   loop 1 invariant mapkept(visitedFrags) && len(spreadPath) == old(len(spreadPath)) && (fragment.Name != nil ==> has(visitedFrags, fragment.Name.Value) && visitedFrags[fragment.Name.Value])
+//@   at call FragmentSpreads: assert arg1 == fragment.SelectionSet
+//@   at call detectCycleRecursive: assert arg0 == lastresult("Fragment") && arg0 != nil && !(has(visitedFrags, spreadName) && visitedFrags[spreadName]) && !heapatloop(1, has(spreadPathIndexByName, spreadName)) && len(spreadPath) == atloop(1, len(spreadPath)) + 1 && spreadPath[len(spreadPath)-1] == spreadNode
+//@   at call Fragment: assert arg1 == spreadName
+//@   loop 1 ensures heapatloop(1, has(spreadPathIndexByName, spreadName)) ==> calls("reportError") == atloop(1, calls("reportError")) + 1 && calls("detectCycleRecursive") == atloop(1, calls("detectCycleRecursive"))
+//@   loop 1 ensures !heapatloop(1, has(spreadPathIndexByName, spreadName)) ==> calls("reportError") == atloop(1, calls("reportError"))
+//@   loop 2 over cyclePath
+//@   loop 3 over cyclePath
+//@   loop 3 invariant fresh(nodes)
+//@   at call reportError: assert arg0 == context && len(arg2) >= 1 && typeis(arg2[len(arg2)-1], "*ast.FragmentSpread") && as(arg2[len(arg2)-1], "*ast.FragmentSpread") == spreadNode
+//@ func NoFragmentCyclesRule$3
+//@   props C02 C09 C19
+//@   nosafety
+//@   ensures !typeis(p.Node, "*ast.FragmentDefinition") || as(p.Node, "*ast.FragmentDefinition") == nil ==> calls("detectCycleRecursive") == 0
+//@   at call detectCycleRecursive: assert !has(visitedFrags, nodeName)
+//@   ensures typeis(p.Node, "*ast.FragmentDefinition") && as(p.Node, "*ast.FragmentDefinition") != nil && as(p.Node, "*ast.FragmentDefinition").Name != nil && !old(has(visitedFrags, as(p.Node, "*ast.FragmentDefinition").Name.Value)) ==> calls("detectCycleRecursive") == 1
+//@   at call detectCycleRecursive: assert arg0 == node
+//@   ensures result0 == visitor.ActionSkip
 
 // VariablesAreInputTypes: a variable definition is reported exactly when its type is known and not an input
 // type; the error is located at the type reference.
